@@ -31,6 +31,9 @@ type CodecCase struct {
 	Mut  string `json:"mut"`
 	Vec  int    `json:"vec"`
 	Fuzz bool   `json:"fuzz"`
+	// TypeV / ModeV, when >= 0, override the vector's type / mode value (the full type x mode table)
+	TypeV int64 `json:"typev"`
+	ModeV int64 `json:"modev"`
 }
 
 // value vectors: value id (1,2) -> concrete boundary value, per vector index
@@ -81,6 +84,8 @@ func tokIDs(t CTok) []int {
 func vv(vec, id int) uint64 { return varintVecs[vec%len(varintVecs)][(id-1)%2] }
 
 // serialize renders the token stream as bytes and returns the concrete message it denotes.
+var overrideType, overrideMode int64 = -1, -1
+
 func serialize(toks []CTok, vec int) ([]byte, *concrete) {
 	var b []byte
 	c := &concrete{}
@@ -107,8 +112,14 @@ func serialize(toks []CTok, vec int) ([]byte, *concrete) {
 			switch t.F {
 			case 1:
 				v = typeVec[vec%len(typeVec)]
+				if overrideType >= 0 {
+					v = uint64(overrideType)
+				}
 			case 7:
 				v = modeVec[vec%len(modeVec)]
+				if overrideMode >= 0 {
+					v = uint64(overrideMode)
+				}
 			default:
 				v = vv(vec, id)
 			}
@@ -365,7 +376,12 @@ func decodeAll(b []byte) (ours data.UnixFSData, oerr error, ref *pb.Data, rerr e
 }
 
 func runCodecCase(cc *CodecCase, tr *Tr) error {
+	overrideType, overrideMode = -1, -1
+	if cc.TypeV > 0 || cc.ModeV > 0 || cc.ID[:4] == "perm" {
+		overrideType, overrideMode = cc.TypeV, cc.ModeV
+	}
 	b, want := serialize(cc.Toks, cc.Vec)
+	overrideType, overrideMode = -1, -1
 	tr.Emit(M{"ev": "reset", "case": caseString(cc)})
 	ours, oerr, ref, rerr := decodeAll(b)
 	ev := M{"ev": "codec", "toks": cc.Toks, "mut": cc.Mut, "vec": cc.Vec, "panic": false, "len": len(b),
@@ -529,6 +545,22 @@ func init() {
 					toks = append(toks, CTok{F: 5, WT: "varint", V: raw(1), Sub: "s"}, CTok{F: 6, WT: "varint", V: raw(1), Sub: "s"},
 						CTok{F: 7, WT: "varint", V: raw(1), Sub: "s"}, CTok{F: 8, WT: "bytes", V: raw(1), Sub: sub})
 					cc := &CodecCase{Fam: "codec", ID: fmt.Sprintf("full-%d-%s-%d", bi, sub, vec), Toks: toks, Mut: "none", Vec: vec, Fuzz: true}
+					if err := runCodecCase(cc, tr); err != nil {
+						return err
+					}
+				}
+			}
+		}
+		// the permission table: every type x a family of modes, with and without an mtime
+		for ty := int64(0); ty < 6; ty++ {
+			for _, mode := range []int64{0, 1, 0o444, 0o555, 0o644, 0o755, 0o7777, 0o100644, 0o40755, 0xFFFFFFFF} {
+				for _, withTime := range []bool{false, true} {
+					toks := []CTok{{F: 1, WT: "varint", V: raw(1), Sub: "s"}, {F: 7, WT: "varint", V: raw(1), Sub: "s"}}
+					if withTime {
+						toks = append(toks, CTok{F: 8, WT: "bytes", V: raw(1), Sub: "sn"})
+					}
+					cc := &CodecCase{Fam: "codec", ID: fmt.Sprintf("perm-%d-%o-%v", ty, mode, withTime), Toks: toks, Mut: "none", Vec: int(ty+mode) % 6,
+						TypeV: ty, ModeV: mode}
 					if err := runCodecCase(cc, tr); err != nil {
 						return err
 					}
